@@ -27,11 +27,11 @@ func (c *Ctx) rulePrunePred() {
 			if !ok || len(r.Results) != 1 {
 				return
 			}
-			if cv, isC := constBool(r.Results[0]); isC && cv {
+			if cv, isC := c.walkContinues(w, r.Results[0]); isC && cv {
 				return
 			}
 			gl := P.BlockGuards(b)
-			if _, isC := constBool(r.Results[0]); !isC {
+			if _, isC := c.walkContinues(w, r.Results[0]); !isC && !w.Visitor {
 				gl = append(append([]Lit{}, gl...), literals(P.condFormula(r.Results[0], 0), false)...)
 			}
 			for _, l := range gl {
@@ -428,6 +428,23 @@ func writebackOnAllPaths(P *Program, call *ssa.Call, cell *ssa.Alloc, lkMap, lkK
 		return true
 	}
 	return walk(b, idx)
+}
+
+// reachesTypeInfoHelpers: product code of package pkg calls util.ExtractTypeInfo / ExtractTypeName.
+func (c *Ctx) reachesTypeInfoHelpers(pkg string) bool {
+	P := c.P
+	for _, name := range []string{"ExtractTypeInfo", "ExtractTypeName"} {
+		top := P.LookupFunc("util", name)
+		if top == nil {
+			continue
+		}
+		for _, cs := range P.Callers(top) {
+			if f := cs.Parent(); f != nil && f.Pkg != nil && f.Pkg.Pkg.Name() == pkg {
+				return true
+			}
+		}
+	}
+	return false
 }
 
 // ruleTypeInfoHelpers: util.ExtractTypeInfo / ExtractTypeName resolve the named type alias-safely and strip one pointer.
